@@ -377,6 +377,9 @@ def _has_required_type_arguments(cls: Any) -> bool:
     base: str = _get_name(cls=cls)
     num_type_args = len(get_type_arguments(cls=cls))
 
+    if base == 'Tuple' and getattr(cls, '__args__', None) == ():
+        return True  # Tuple[()] is the complete annotation of the empty tuple (the bare Tuple has no __args__)
+
     if base in NUM_OF_REQUIRED_TYPE_ARGS_EXACT:
         return NUM_OF_REQUIRED_TYPE_ARGS_EXACT[base] == num_type_args
     elif base in NUM_OF_REQUIRED_TYPE_ARGS_MIN:
